@@ -13,12 +13,83 @@ class TranslatorError(Exception):
     pass
 
 
+_LOGGER_NAMES = {"logger", "log", "_logger", "LOGGER"}
+_LOG_METHODS = {"debug", "info", "warning", "error", "exception", "critical", "log"}
+
+
+def _pure_expr(e: ast.AST) -> bool:
+    """Expressions whose evaluation cannot write anything: names, attribute chains on names,
+    constants, f-strings / tuples / %-formatting of those.  (An attribute could be a property with
+    side effects; the repository has none that write.  This is part of the translators' trusted base.)"""
+    if isinstance(e, (ast.Constant, ast.Name)):
+        return True
+    if isinstance(e, ast.Attribute):
+        return _pure_expr(e.value)
+    if isinstance(e, ast.JoinedStr):
+        return all(_pure_expr(v) for v in e.values)
+    if isinstance(e, ast.FormattedValue):
+        return _pure_expr(e.value) and (e.format_spec is None or _pure_expr(e.format_spec))
+    if isinstance(e, (ast.Tuple, ast.List)):
+        return all(_pure_expr(v) for v in e.elts)
+    if isinstance(e, ast.BinOp) and isinstance(e.op, (ast.Mod, ast.Add)):
+        return _pure_expr(e.left) and _pure_expr(e.right)
+    return False
+
+
+def _is_logger_call(e: ast.AST, methods) -> bool:
+    return (isinstance(e, ast.Call) and isinstance(e.func, ast.Attribute) and e.func.attr in methods
+            and isinstance(e.func.value, ast.Name) and e.func.value.id in _LOGGER_NAMES
+            and all(_pure_expr(a) for a in e.args) and all(_pure_expr(k.value) for k in e.keywords))
+
+
+def _is_logging_only(stmt: ast.stmt) -> bool:
+    """A statement that only emits a log record: `logger.debug(<pure args>)`, or
+    `if logger.isEnabledFor(<pure>): <logging-only statements>` without else."""
+    if isinstance(stmt, ast.Expr) and _is_logger_call(stmt.value, _LOG_METHODS):
+        return True
+    if isinstance(stmt, ast.If) and not stmt.orelse and _is_logger_call(stmt.test, {"isEnabledFor"}):
+        return all(_is_logging_only(s) for s in stmt.body)
+    return False
+
+
+class _DropLogging(ast.NodeTransformer):
+    """Behaviour-preserving normalisation applied to every module the translators read: statements
+    that only emit a log record are dropped, as is a module-level `logger = logging.getLogger(...)`.
+    Everything the translators recognise or fingerprint is therefore insensitive to added or removed
+    debug logging.  Docstrings are dropped by the translators themselves (body_without_docstring)."""
+
+    def _filter(self, body):
+        out = [s for s in body if not _is_logging_only(s)]
+        return out or [ast.Pass()]
+
+    def generic_visit(self, node):
+        super().generic_visit(node)
+        for field in ("body", "orelse", "finalbody"):
+            val = getattr(node, field, None)
+            if isinstance(val, list) and val and isinstance(val[0], ast.stmt):
+                new = self._filter(val) if field == "body" else [s for s in val if not _is_logging_only(s)]
+                setattr(node, field, new)
+        return node
+
+    def visit_Module(self, node):
+        self.generic_visit(node)
+        def is_logger_def(s):
+            return (isinstance(s, ast.Assign) and len(s.targets) == 1 and isinstance(s.targets[0], ast.Name)
+                    and s.targets[0].id in _LOGGER_NAMES and isinstance(s.value, ast.Call)
+                    and ast.unparse(s.value.func) == "logging.getLogger")
+        node.body = [s for s in node.body if not is_logger_def(s)]
+        return node
+
+
 def parse_module(rel: str) -> ast.Module:
     path = REPO / rel
     try:
-        return ast.parse(path.read_text(), filename=str(path))
+        tree = ast.parse(path.read_text(), filename=str(path))
     except (OSError, SyntaxError) as e:
         raise TranslatorError(f"cannot parse {rel}: {e}") from e
+    tree = _DropLogging().visit(tree)
+    ast.fix_missing_locations(tree)
+    return tree
 
 
 def find_function(tree: ast.AST, name: str, cls: str | None = None) -> ast.FunctionDef | ast.AsyncFunctionDef:
